@@ -481,7 +481,7 @@ fn w_seq(toks: &[Tok], t: &mut Tape, mode: u8, out: &mut String) -> bool {
                 }
             },
             Tok::Rep { body, lo, hi, .. } => {
-                let max = hi.unwrap_or(lo + 2).min(lo + 2);
+                let max = hi.unwrap_or(lo + 2).min(lo + 2).max(*lo);
                 let k = match mode {
                     1 => *lo,
                     2 => max,
